@@ -163,6 +163,7 @@ class Stats(object):
         self.excluded_constr = collections.Counter()
         self.per_sub = collections.Counter()
         self.budget_exhausted = []
+        self.collected = {}
 
     def record(self, subname, case, out):
         self.evaluations += 1
@@ -194,6 +195,7 @@ class Stats(object):
             "excluded_constr": dict(self.excluded_constr),
             "per_sub": dict(self.per_sub),
             "budget_exhausted": self.budget_exhausted,
+            "collected": self.collected,
         }
 
 
@@ -242,6 +244,16 @@ def run_shard(mod, tier, seed, shard, nshards, only=None, examples=None):
                         stats.excluded_known[kid] += 1
                 else:
                     new.append(v)
+            if new and os.environ.get("WV_COLLECT"):
+                # dev mode: bucket by signature, keep the smallest case per bucket, keep searching
+                size = len(canon(case))
+                for v in new:
+                    cur = stats.collected.get(v["sig"])
+                    if cur is None or size < cur[0]:
+                        stats.collected[v["sig"]] = [size, {"sub": subname, "case": case, "violations": [v]},
+                                                     (cur[2] if cur else 0)]
+                    stats.collected[v["sig"]][2] += 1
+                return
             if new:
                 if state["fail_t"] is None:
                     state["fail_t"] = time.time()
@@ -297,7 +309,7 @@ def load_mod(prop):
 
 
 def write_replay(prop, found, seed, tier):
-    d = os.path.join(ROOT, "replays", prop)
+    d = os.path.join(os.environ.get("WV_SCRATCH_REPLAYS") or os.path.join(ROOT, "replays"), prop)
     os.makedirs(d, exist_ok=True)
     name = "viol_%s_%s.json" % (found["sub"], digest([found["sub"], found["case"]])[:10])
     path = os.path.join(d, name)
@@ -305,7 +317,7 @@ def write_replay(prop, found, seed, tier):
         json.dump({"property": prop, "sub": found["sub"], "case": found["case"],
                    "violations": found["violations"], "seed": seed, "tier": tier}, f, indent=1,
                   sort_keys=True, default=repr)
-    return os.path.relpath(path, ROOT)
+    return os.path.relpath(path, ROOT) if path.startswith(ROOT) else path
 
 
 def replay_file(mod, path, known):
@@ -449,6 +461,12 @@ def _main(args, prop, seed):
             for a, b in res[k].items():
                 tgt[a] += b
         merged.budget_exhausted.extend(res["budget_exhausted"])
+        for sig, (size, fnd, cnt) in res.get("collected", {}).items():
+            cur = merged.collected.get(sig)
+            if cur is None or size < cur[0]:
+                merged.collected[sig] = [size, fnd, cnt + (cur[2] if cur else 0)]
+            else:
+                cur[2] += cnt
         if res["found"] and found is None:
             found = res["found"]
     import shutil
@@ -495,6 +513,15 @@ def _main(args, prop, seed):
         prop, tier, merged.evaluations, len(merged.nontrivial), sum(merged.excluded_known.values()), wall))
     if args.sub or args.examples:
         print(json.dumps(cov["classes"], indent=0)[:3000])
+    if merged.collected:
+        cdir = os.path.join(ROOT, ".work", "collect", prop)
+        shutil.rmtree(cdir, ignore_errors=True)
+        os.makedirs(cdir, exist_ok=True)
+        for i, (sig, (size, fnd, cnt)) in enumerate(sorted(merged.collected.items(), key=lambda kv: -kv[1][2])):
+            pth = os.path.join(cdir, "%02d.json" % i)
+            json.dump({"property": prop, "sub": fnd["sub"], "case": fnd["case"], "violations": fnd["violations"],
+                       "seed": seed, "tier": tier}, open(pth, "w"), indent=1, sort_keys=True, default=repr)
+            print("COLLECTED %5d x %s  (smallest %d bytes) -> %s" % (cnt, sig, size, os.path.relpath(pth, ROOT)))
     if found:
         for v in found["violations"][:3]:
             print("  violation sub=%s sig=%s detail=%s" % (found["sub"], v["sig"], v["detail"]))
